@@ -52,7 +52,7 @@ class InitSim(Sim):
     THOROUGH_RUNS = 120000
     MAX_EVENTS = 10
     PROBES = ["stub_hit_uniform", "stub_hit_normal", "real_rng_large_sample", "rank1_plain_filler", "rank_lt2_refused", "fan_out_mode",
-              "leaky_relu_slope", "layer_linear", "layer_conv1d", "layer_conv2d", "float64", "requires_grad_kept", "rank3", "rank4", "gain_not_one"]
+              "leaky_relu_slope", "layer_linear", "layer_conv1d", "layer_conv2d", "float64", "requires_grad_kept", "rank3", "rank4", "gain_not_one", "non_contiguous_tensor", "initialiser_inside_no_grad"]
     RULE = ("one run = 3-10 initialiser / layer-constructor calls with seeded configurations (shape rank 1-4, gain, mode, nonlinearity, slope, "
             "dtype, requires_grad), each under the stub stream or the real seeded generator; distinct = initialiser x rank x mode x nonlinearity "
             "x dtype x stream; non-trivial = a random initialiser ran on a tensor of rank >= 2")
@@ -102,7 +102,9 @@ class InitSim(Sim):
                 args = {"mode": rng.choice(["fan_in", "fan_out"]), "nonlinearity": rng.choice(NONLIN)}
                 if args["nonlinearity"] == "leaky_relu" or rng.random() < 0.2:
                     args["a"] = rng.choice([0, 0.01, 0.2, 1, 0.5])
-        return {"k": "init", "fn": fn, "shape": shape, "f64": rng.random() < 0.4, "rg": rng.random() < 0.5, "args": args, "how": how}
+        return {"k": "init", "fn": fn, "shape": shape, "f64": rng.random() < 0.4, "rg": rng.random() < 0.5, "args": args, "how": how,
+                "layout": rng.choice(["C", "C", "C", "F", "transposed", "strided"]) if rank >= 2 else rng.choice(["C", "C", "strided"]),
+                "in_no_grad": rng.random() < 0.15}
 
     # ------------------------------------------------------------------ expectations
     def _expect(self, fn, shape, args):
@@ -200,7 +202,23 @@ class InitSim(Sim):
         SG = st.SG
         fn, shape, args = ev["fn"], tuple(ev["shape"]), ev["args"]
         dtype = np.float64 if ev["f64"] else np.float32
-        t = SG.Tensor(np.full(shape, 123.0, dtype=dtype), requires_grad=ev["rg"])
+        layout = ev.get("layout", "C")
+        base = np.full(shape, 123.0, dtype=dtype)
+        if layout == "F":
+            base = np.asfortranarray(base)
+        elif layout == "strided":
+            big = np.full(shape[:-1] + (shape[-1] * 2,), 123.0, dtype=dtype)
+            base = big[..., ::2]
+        if layout == "transposed" and len(shape) >= 2:
+            # the tensor to fill is the result of a transpose (a non-contiguous view), as in synapgrad.empty(b, a).transpose(0, 1)
+            src = SG.Tensor(np.full((shape[1], shape[0]) + shape[2:], 123.0, dtype=dtype), requires_grad=False)
+            t = src.transpose(0, 1)
+            if ev["rg"]:
+                t.requires_grad = True
+        else:
+            t = SG.Tensor(base, requires_grad=ev["rg"])
+        if layout != "C":
+            st.probes["non_contiguous_tensor"] += 1
         f = getattr(SG.init, fn)
         call_args = [t]
         kw = {}
@@ -217,8 +235,12 @@ class InitSim(Sim):
         stub = RngStub(perm_seed=len(st.events)) if ev["how"] == "stub" else None
         needs2 = fn.startswith("xavier") or fn.startswith("kaiming")
         st.sig.append(f"{fn}:r{len(shape)}:{args.get('mode', '')}:{args.get('nonlinearity', '')}:{'f8' if ev['f64'] else 'f4'}:{ev['how']}")
+        import contextlib
+        ctx = SG.sg.no_grad() if ev.get("in_no_grad") else contextlib.nullcontext()      # e.g. `with no_grad(): model.apply(init_fn)`
+        if ev.get("in_no_grad"):
+            st.probes["initialiser_inside_no_grad"] += 1
         try:
-            with quiet():
+            with quiet(), ctx:
                 if stub is not None:
                     with stub.installed():
                         out = f(*call_args, **kw)
